@@ -366,6 +366,79 @@ def run_build(case):
     return {"viol": dedupe(viol), "stats": {"objects_built": n}, "nontrivial": sorted(nt), "evaluations": n}
 
 
+def run_refill(case):
+    """One live instance per type is re-filled again and again through the public set_raw_string()/set_raw_chunks() with the reference
+    bytes of freshly generated records (with and without every optional field): what it then reports, serialises to and is named must be
+    that of the new text alone - nothing may survive from the text it held before. A no-op edit (a field set to its own value) then
+    forces a re-serialisation from the fields."""
+    import dulwich.objects as O
+    rng = random.Random(case["seed"])
+    viol, nt, n = [], set(), 0
+    live = {"commit": O.Commit(), "tag": O.Tag(), "tree": O.Tree(), "blob": O.Blob()}
+    prev = {}
+    for _ in range(case["n"]):
+        kind = rng.choice(["commit", "tag", "tag", "tree", "blob"])
+        n += 1
+        if kind == "commit":
+            r = gen_commit_rec(rng, odd=True)
+            want = ref_commit(r)
+        elif kind == "tag":
+            r = gen_tag_rec(rng)
+            want = ref_tag(r)
+        elif kind == "tree":
+            r = gen_tree_entries(rng)
+            want = ref_tree(r)
+        else:
+            r = want = bytes(rng.randrange(256) for _ in range(rng.randint(0, 40)))
+        obj = live[kind]
+        try:
+            if rng.random() < 0.5:
+                obj.set_raw_string(want)
+            else:
+                k = sorted(rng.sample(range(len(want)), min(2, len(want))))
+                obj.set_raw_chunks([want[a:b] for a, b in zip([0] + k, k + [len(want)])])
+            fresh = O.ShaFile.from_raw_string(obj.type_num, want)
+            if kind == "commit":
+                f_live, f_fresh = norm_commit(commit_fields(obj)), norm_commit(commit_fields(fresh))
+            elif kind == "tag":
+                f_live, f_fresh = tag_fields(obj), tag_fields(fresh)
+            elif kind == "tree":
+                f_live, f_fresh = [(e.path, e.mode, e.sha) for e in obj.iteritems()], [(e.path, e.mode, e.sha) for e in fresh.iteritems()]
+            else:
+                f_live, f_fresh = obj.data, fresh.data
+            shape = "+".join(sorted(set(prev.get(kind, [])) - (set(f_fresh) if isinstance(f_fresh, dict) else set())))[:40] if isinstance(f_fresh, dict) else ""
+            if f_live != f_fresh:
+                diff = sorted(k_ for k_ in set(f_live) | set(f_fresh) if f_live.get(k_) != f_fresh.get(k_)) if isinstance(f_fresh, dict) else ["content"]
+                viol.append({"sig": "C01/%s/refilled-instance-reports-fields-of-earlier-text/%s" % (kind, "+".join(diff[:2])), "previous_had": shape})
+                live[kind] = type(obj)()
+                continue
+            if not check_named(obj, want, viol, "%s/refilled" % kind, O):
+                live[kind] = type(obj)()
+                continue
+            # no-op edit: re-serialise from the fields
+            if kind == "commit":
+                obj.message = obj.message
+            elif kind == "tag":
+                obj.name = obj.name
+            elif kind == "tree" and r:
+                nm, md, sh = r[0]
+                obj[nm] = (md, sh)
+            elif kind == "blob":
+                obj.data = obj.data
+            if obj.as_raw_string() != want or obj.id != oid(obj.type_name, want):
+                viol.append({"sig": "C01/%s/refilled-then-noop-edit/bytes-differ-from-reference" % kind, "previous_had": shape,
+                             "got": obj.as_raw_string()[:300].hex(), "want": want[:300].hex()})
+                live[kind] = type(obj)()
+                continue
+            if isinstance(f_fresh, dict):
+                prev[kind] = list(f_fresh)
+                nt.add("refill:%s:%s" % (kind, "+".join(sorted(k_ for k_ in f_fresh if k_ in ("tagger", "signature", "encoding", "gpgsig", "extra", "mergetags")))))
+        except Exception as e:
+            viol.append({"sig": "C01/%s/refill-raises-%s" % (kind, type(e).__name__), "text": want[:300].hex()})
+            live[kind] = type(obj)()
+    return {"viol": dedupe(viol), "stats": {"instances_refilled": n}, "nontrivial": sorted(nt), "evaluations": n}
+
+
 def dedupe(viol):
     seen, out = set(), []
     for v in viol:
@@ -710,7 +783,7 @@ def worker_exit():
 
 
 def run_case(case):
-    return {"build": run_build, "edits": run_edits, "reparse": run_reparse, "git": run_git}[case["kind"]](case)
+    return {"build": run_build, "edits": run_edits, "reparse": run_reparse, "git": run_git, "refill": run_refill}[case["kind"]](case)
 
 
 def main(ctx):
@@ -721,6 +794,8 @@ def main(ctx):
         cases.append({"kind": "edits", "seed": "%d/e/%d" % (ctx.seed, i), "n": 150})
     for i in range(ctx.budget(200, 2000)):
         cases.append({"kind": "reparse", "seed": "%d/r/%d" % (ctx.seed, i), "n": 200})
+    for i in range(ctx.budget(100, 1000)):
+        cases.append({"kind": "refill", "seed": "%d/f/%d" % (ctx.seed, i), "n": 200})
     for i in range(ctx.budget(60, 600)):
         cases.append({"kind": "git", "seed": "%d/g/%d" % (ctx.seed, i), "n": 80})
     ctx.rule = ("objects generated from field records over the quantifier's classes (identities with odd bytes, times to 2^64, every +-HHMM "
